@@ -7,7 +7,7 @@
     PARTIAL with respect to the property text: SQLite's own atomicity/isolation, tokio's
     Semaphore/Mutex and sqlx's "dropped transaction = rollback" are assumptions of the model. *)
 From Coq Require Import List Arith NArith.
-From PV Require Import Model.Tx Proofs.Tx.
+From PV Require Import Model.Tx Proofs.Tx Model.TxSlot Proofs.TxSlot.
 Import ListNotations.
 
 (** At most one owner of the transaction permit at any time. *)
@@ -87,3 +87,74 @@ Theorem C10_step_decreases :
     reachable P s -> step P s l = Some s' -> actor l < n -> measure P n s' < measure P n s.
 Proof. exact step_decreases. Qed.
 Print Assumptions C10_step_decreases.
+
+(** * Slot-mutex refinement (Model/TxSlot.v): a statement of the running transaction T is in
+    flight — issued by a helper sharing the store clone, the slot mutex held — while the permit is
+    dropped.  For every configuration (T's program, the helper's and the follower's writes) and
+    every trace of the code as it is ([sstep false]). *)
+
+(** When the aborted transaction's permit is released (T ended without commit, its rollback task
+    is not pending any more) the slot holds nothing of T — it is empty or holds exactly the
+    follower's statements —, with the permit available again the slot is empty, and none of T's
+    writes (its own or the helper's) is in the database. *)
+Theorem C10_aborted_tx_is_rolled_back_before_permit_release :
+  forall (c : scfg) (s : sstate),
+    sreachable c s -> aborted (pT s) = true -> active_rb (rT s) = false ->
+    (sslot s = None \/ exists k, pN s = PHold k /\ sslot s = Some (firstn k (nw c)))
+    /\ (sem s = true -> sslot s = None)
+    /\ (forall w, In w (TW c) -> ~ In w (nw c) -> ~ In w (sdb s)).
+Proof. exact aborted_tx_is_rolled_back_before_permit_release. Qed.
+Print Assumptions C10_aborted_tx_is_rolled_back_before_permit_release.
+
+(** The following transaction's begin(), once it owns the semaphore permit, finds the slot empty
+    (the assert holds) and, as soon as no helper statement is in flight, opens its transaction. *)
+Theorem C10_next_begin_finds_empty_slot :
+  forall (c : scfg) (s : sstate),
+    sreachable c s -> pN s = PGranted ->
+    sslot s = None /\
+    (mtx s = false -> exists s', sstep false c s LN = Some s' /\ pN s' = PHold 0).
+Proof. exact next_begin_finds_empty_slot. Qed.
+Print Assumptions C10_next_begin_finds_empty_slot.
+
+(** Neither transaction ever reaches the assert of begin() or the panics of commit()/rollback(). *)
+Theorem C10_slot_no_panic :
+  forall (c : scfg) (s : sstate),
+    sreachable c s -> pT s <> PDone OPanic /\ pN s <> PDone OPanic.
+Proof. exact slot_no_panic. Qed.
+Print Assumptions C10_slot_no_panic.
+
+(** Rows come only from committed transactions (helper writes count as T's). *)
+Theorem C10_slot_rows_only_from_committed :
+  forall (c : scfg) (s : sstate) (w : key),
+    sreachable c s -> In w (sdb s) ->
+    (pT s = PDone OCommitted /\ In w (TW c)) \/ (pN s = PDone OCommitted /\ In w (nw c)).
+Proof. exact slot_rows_only_from_committed. Qed.
+Print Assumptions C10_slot_rows_only_from_committed.
+
+(** No permanent block: while the permit is taken, a step that is not a cancellation is enabled
+    (the helper's while it holds the slot mutex, else the permit owner's). *)
+Theorem C10_slot_progress :
+  forall (c : scfg) (s : sstate),
+    sreachable c s -> sem s = false ->
+    exists l s', is_scancel l = false /\ sstep false c s l = Some s'.
+Proof. exact slot_progress. Qed.
+Print Assumptions C10_slot_progress.
+
+(** Every step strictly decreases the remaining-work measure: the helper's statement, the
+    rollback task and the owner run out of steps, so with [C10_slot_progress] the permit is passed on. *)
+Theorem C10_slot_step_decreases :
+  forall (c : scfg) (s : sstate) (l : slabel) (s' : sstate),
+    sreachable c s -> sstep false c s l = Some s' -> smeasure c s' < smeasure c s.
+Proof. exact slot_step_decreases. Qed.
+Print Assumptions C10_slot_step_decreases.
+
+(** Regression lemma about the seeded VARIANT C10-1 (try_lock in TransactionPermit::drop,
+    [sstep true]), not a finding about the code: the rollback is skipped, T's transaction stays in
+    the slot after the permit was released and the following begin() hits its assert. *)
+Theorem C10_slot_variant_try_lock_refuted :
+  exists (c : scfg) (tr : list slabel) (s : sstate),
+    srun true c sinit tr = Some s /\
+    aborted (pT s) = true /\ active_rb (rT s) = false /\
+    sslot s = Some [1%N; 5%N] /\ pN s = PDone OPanic.
+Proof. exact slot_try_lock_refuted. Qed.
+Print Assumptions C10_slot_variant_try_lock_refuted.
